@@ -3,7 +3,8 @@ from __future__ import annotations
 
 import ast
 
-from ..astx import un, chain, call_name, paths, params, walk_shallow, single_assignments, inline, enclosing, names_read
+from ..astx import (un, chain, call_name, paths, params, walk_shallow, single_assignments, inline, enclosing, names_read,
+                    inline_self_calls, private_helper_owners, seq)
 from ..core import rule, fixture_for, Unknown
 from .c10 import GETITEMS, GENERATORS, _flatten_try
 
@@ -88,7 +89,7 @@ def dominates_in_block(a, b):
     """Statement a precedes b and is executed on every path that reaches b (structured code: a's if-chain is a
     prefix of b's)."""
     ca, cb = branch_chain(a), branch_chain(b)
-    return a.lineno < b.lineno and cb[:len(ca)] == ca
+    return seq(a) < seq(b) and cb[:len(ca)] == ca
 
 
 def check_name_injective(ctx, repo):
@@ -112,7 +113,7 @@ def check_name_injective(ctx, repo):
             insensitive.append((q, node, "no dependence on the operand keys"))
     # store sites
     for q in GETITEMS:
-        fn = ctx.func(q)
+        fn = inline_self_calls(repo, q.rsplit(".", 1)[0], ctx.func(q))
         stores = [n for n in walk_shallow(fn) if isinstance(n, ast.Assign) and any(
             isinstance(t, ast.Subscript) and _is_numspace(t.value) for t in n.targets)]
         if not stores:
@@ -196,7 +197,7 @@ def token_atomic(ctx):
     code then updates (two threads filling the cache concurrently read the same size and collide); accepted:
     the identity of the freshly generated function object, an atomic counter, a uuid."""
     for q in GETITEMS:
-        fn = ctx.func(q)
+        fn = inline_self_calls(ctx.repo, q.rsplit(".", 1)[0], ctx.func(q))
         for n in walk_shallow(fn):
             tgt = None
             if isinstance(n, ast.Assign):
@@ -221,13 +222,14 @@ def token_atomic(ctx):
 
 
 # --------------------------------------------------------------------------- who may write the name space
-@rule("C09.numspace-writers", props=["C09", "C10"], min_instances=3, mutants=[
+@rule("C09.numspace-writers", props=["C09", "C10"], min_instances=1, mutants=[
     ("callable multivectors memoised by name in numspace", ("codegen", "    return CodegenOutput(tuple(mv.keys()), func)\n\n\ndef do_codegen", "    mv.algebra.numspace.setdefault(f'custom_{mv.type_number}', func)\n    return CodegenOutput(tuple(mv.keys()), mv.algebra.numspace[f'custom_{mv.type_number}'])\n\n\ndef do_codegen")),
 ])
 def numspace_writers(ctx):
     """Only the three cache __getitem__ methods store into the algebra's name space (OWN): any other writer keys
     generated functions by something that is not a cache entry."""
     repo = ctx.repo
+    owners = private_helper_owners(repo, set(GETITEMS))
     for mname, qual, fn in repo.all_functions():
         aliases = set()
         for n in walk_shallow(fn):
@@ -248,7 +250,7 @@ def numspace_writers(ctx):
             if site is None:
                 continue
             c = f"{qual}#numspace-write"
-            if qual in GETITEMS:
+            if qual in owners:
                 ctx.ok(c, site, module=mname)
             elif qual == "codegen.do_compile" and isinstance(site, ast.Call) is False and False:
                 ctx.ok(c, site, module=mname)
@@ -342,7 +344,7 @@ def check_exception_atomic(ctx, fn, q):
 def exception_atomic(ctx):
     """A failing generation/compilation/wrapper leaves operator_dict and numspace untouched (TS)."""
     for q in GETITEMS:
-        check_exception_atomic(ctx, ctx.func(q), q)
+        check_exception_atomic(ctx, inline_self_calls(ctx.repo, q.rsplit(".", 1)[0], ctx.func(q)), q)
     # the same by abstract interpretation: a failing generator / wrapper leaves both dictionaries empty
     from ..absint import Obj, PyFunc, Raised, NoValue
     from ..symenv import make_interp
@@ -464,10 +466,13 @@ def storage_writes(fn):
 def storage_writers(ctx):
     """Only the constructor, the documented in-place APIs and a fresh local result write multivector storage (OWN)."""
     repo = ctx.repo
+    owners = private_helper_owners(repo, set(ACCEPTED_WRITERS))
     for mname, qual, fn in repo.all_functions():
         for node, what, receiver in storage_writes(fn):
             c = f"{qual}#{what.split(' ')[0]}:{receiver}"
-            if qual in ACCEPTED_WRITERS:
+            if qual in owners and qual not in ACCEPTED_WRITERS:
+                ctx.ok(c, node, module=mname, reason="private helper called only from accepted writers")
+            elif qual in ACCEPTED_WRITERS:
                 if qual == "codegen.codegen_outerexp":
                     # receiver must be a local bound to the result of an operator call in this function
                     defs = [n for n in walk_shallow(fn) if isinstance(n, ast.Assign) and any(
